@@ -418,7 +418,8 @@ func (x *Exec) Apply(st Step) error {
 		msg := flows.NewMsgIn(flows.MsgUUID(uuids.NewV4()), urns.URN(x.Root.msgURN()), assets.NewChannelReference(assets.ChannelUUID(ChanTel), "Tel"), strings.TrimPrefix(st.Ev, "refresh:"), nil)
 		res = resumes.NewMsg(nil, contact, msg)
 	} else if strings.HasPrefix(st.Ev, "env:") {
-		// "env:<which>:<text>": a msg resume that carries a changed environment
+		// "env:<which>:<text>": a msg resume that carries a changed environment (text "!expire" /
+		// "!timeout": a run_expiration / wait_timeout resume carrying it instead)
 		//   urns / none  the root's environment with that redaction policy
 		//   alt          other date/time formats, timezone and number format
 		//   far          the root's environment in a timezone 14 hours ahead of UTC
@@ -453,8 +454,15 @@ func (x *Exec) Apply(st Step) error {
 		if len(parts) > 2 {
 			text = parts[2]
 		}
-		msg := flows.NewMsgIn(flows.MsgUUID(uuids.NewV4()), urns.URN(x.Root.msgURN()), assets.NewChannelReference(assets.ChannelUUID(ChanTel), "Tel"), text, nil)
-		res = resumes.NewMsg(env, nil, msg)
+		switch text {
+		case "!expire": // the environment arrives with a resume that brings neither message nor contact
+			res = resumes.NewRunExpiration(env, nil)
+		case "!timeout":
+			res = resumes.NewWaitTimeout(env, nil)
+		default:
+			msg := flows.NewMsgIn(flows.MsgUUID(uuids.NewV4()), urns.URN(x.Root.msgURN()), assets.NewChannelReference(assets.ChannelUUID(ChanTel), "Tel"), text, nil)
+			res = resumes.NewMsg(env, nil, msg)
+		}
 	} else if strings.HasPrefix(st.Ev, "msg:") && x.Root.MsgURN != "" {
 		msg := flows.NewMsgIn(flows.MsgUUID(uuids.NewV4()), urns.URN(x.Root.msgURN()), assets.NewChannelReference(assets.ChannelUUID(ChanTel), "Tel"), strings.TrimPrefix(st.Ev, "msg:"), nil)
 		res = resumes.NewMsg(nil, nil, msg)
